@@ -6,3 +6,5 @@ import Dalek.Gen.Norm.All
 import Dalek.Proofs.EdwardsGroup
 import Dalek.Proofs.FieldFacts
 import Dalek.Props.All
+import Dalek.Proofs.CurveOrder
+import Dalek.Proofs.CurveOrder.Structure
